@@ -113,7 +113,9 @@ let refine_law sch (h : heap) (o : op) (h' : heap) (r : pval) : unit =
     if not (tidyb sch h') then failwith "law C08.tidy_preserved fails"
   end
 
-let run_hist sch (h0 : heap) (outs0 : pval list) (root : nat option) (ops : string) : string =
+(* [stepf]: how one operation (given also as its text) is executed (Reflect.step; the reflectprog evaluator passes the interpreter of the translated methods);
+   [laws]: evaluate the statements about Reflect.step on every step *)
+let run_hist_gen (stepf : string -> schema -> heap -> op -> heap * pval) (laws : bool) sch (h0 : heap) (outs0 : pval list) (root : nat option) (ops : string) : string =
   let opl = String.split_on_char ';' ops in
   let outs = Array.make (List.length opl + List.length outs0 + 1) PPanic in
   List.iteri (fun i v -> outs.(i) <- v) outs0;
@@ -124,8 +126,17 @@ let run_hist sch (h0 : heap) (outs0 : pval list) (root : nat option) (ops : stri
   List.iteri
     (fun i s ->
       let o = parse_op outs !n s in
-      let h', r = step sch !h o in
-      refine_law sch !h o h' r;
+      let h', r = stepf s sch !h o in
+      if laws then begin
+      (let hm, rm = step sch !h o in refine_law sch !h o hm rm);   (* (about Reflect.step, whatever stepf is) *)
+      (* the statements of Model/ReflectProg.v on this step: the canonical method bodies (what the eight templates emit for the
+         schema), interpreted, are Reflect.step; the heap invariant they assume is kept *)
+      Driver.law "C08.reflect_prog_correct" (reflect_prog_law sch !h o);
+      Driver.law "C08.rp_heap_ok_kept" (rp_heap_okb sch !h && rp_heap_ok_kept_law sch !h o);
+      (match words s, o with
+       | [ "rstop"; _; k ], ORange (PMsg (m, p)) -> Driver.law "C08.range_stop_prog" (range_stop_law sch !h m p (nat_of_int (int_of_string k)))
+       | _ -> ())
+      end;
       (* rstop / mrstop: a Range whose callback returns false at once makes exactly one callback when anything is populated *)
       let stop = (match words s with [ ("rstop" | "mrstop"); _; n ] -> Some (int_of_string n) | _ -> None) in
       let capped k len = PScalar (VInt (z_of_dec (string_of_int (min k len)))) in
@@ -144,6 +155,8 @@ let run_hist sch (h0 : heap) (outs0 : pval list) (root : nat option) (ops : stri
       Buffer.add_string buf (msg_val sch h' !root))
     opl;
   Buffer.contents buf
+
+let run_hist = run_hist_gen (fun _ -> step) true
 
 (* ---- HISTREF: the reference model against the common answer of dynamicpb and the struct-based reflection ----------
      HISTREF <sid> <msg#> <op>;<op>;... <k>   = <norm>;<norm>;...      (k: index of the step the two implementations
